@@ -304,6 +304,8 @@ class Case:
                 u = units[nv % len(units)]
                 table = ("comments", "padding")[k % 2]
                 key = "block" if (nv // 7) % 2 == 0 else "interval"
+                if any(t == table for (t, _k) in u.notes):
+                    continue
                 u.notes[(table, key)] = {0: (f"c{g}_{k}" if table == "comments" else 1 + nv % 5)}
             self.blocks.append(blk)
         ent = spec.get("entry")
